@@ -341,7 +341,7 @@ func evalRow(o *rec, r row) {
 		o.Inconcl("admission: cannot build the switch under test: " + err.Error())
 		return
 	}
-	defer s.stop()
+	defer stopAsync(o, "d_switch_stop_did_not_return", s.stop)
 	sigStr := mkSig(r.Sig, announced)
 	mustRefuse, key, dontCare := decide(&r, sigStr, announced, v1)
 
@@ -355,7 +355,7 @@ func evalRow(o *rec, r row) {
 		remote.SetNodePrivKey(connPriv)
 		remote.SetExchangeData(&p2p.ExchangeData{GenesisJSON: []byte(`{"chain_id":"c20"}`)})
 		remote.Start()
-		defer remote.Stop()
+		defer stopAsync(o, "d_switch_stop_did_not_return", func() { remote.Stop() })
 	}
 	var hold []net.Conn
 	defer func() {
@@ -463,6 +463,20 @@ func evalRow(o *rec, r row) {
 	}
 	if mustRefuse && !admitted && (r.Sig == "by-removed-ca" || r.Refused && r.Mismatch) {
 		o.Sample(map[string]interface{}{"monitor": "d", "row": r, "admitted": admitted, "sut_error": fmt.Sprint(sutErr)})
+	}
+}
+
+// stopAsync: Switch.Stop() stops the peers' MConnections, and
+// MConnection.Stop() can block forever (an unconsumed chStatsTimer/pingTimer
+// tick blocks RepeatTimer.Stop()). Liveness of Stop is not C20's subject: the
+// hang is counted, the goroutine abandoned.
+func stopAsync(o *rec, counter string, f func()) {
+	done := make(chan struct{})
+	go func() { f(); close(done) }()
+	select {
+	case <-done:
+	case <-time.After(5 * time.Second):
+		o.Count(counter, 1)
 	}
 }
 
